@@ -567,3 +567,102 @@ def fam_estimate_amplitudes(tier="quick", seed=0):
     for M in (1, 3):
         for roi in ((2, 2), (3, 4), (5, 5)):
             yield dict(M=M, B=2, roi=roi, seed=seed + M + roi[0])
+
+
+# ------------------------------------------------------------------------------------------------ object model: forward / backward
+
+
+def _object_model(m, S, H, W, rng, modulus=(0.5, 1.5), dz=None):
+    """A REAL ObjectPixelated declared pure_phase whose raw parameter has arbitrary modulus (from_array with |guess| != 1)."""
+    from quantem.diffractive_imaging.object_models import ObjectPixelated
+
+    np = m.np
+    guess = rng.uniform(*modulus, size=(S, H, W)) * np.exp(1j * rng.uniform(-1.5, 1.5, size=(S, H, W)))
+    om = ObjectPixelated.from_array(guess.astype(np.complex64), slice_thicknesses=dz if dz is not None else 5.0, obj_type="pure_phase")
+    om._initialize_obj((S, H, W), sampling=(0.3, 0.41))
+    return om
+
+
+def rt_objforward(inp):
+    """ObjectPixelated.forward of a pure-phase object: unit-modulus patches (whatever the raw parameter), and through the real chain
+    the summed pattern intensity equals the probe intensity."""
+    m = _mods()
+    np, torch = m.np, m.torch
+    rng = np.random.default_rng(inp["seed"])
+    S, M, B, (nr, nc) = inp["S"], inp["M"], inp["B"], inp["roi"]
+    H, W = nr + 3, nc + 2
+    om = _object_model(m, S, H, W, rng, modulus=tuple(inp.get("modulus", (0.5, 1.5))))
+    idx = torch.tensor(_patch_indices(np, rng, B, (nr, nc), (H, W)), dtype=torch.int32)
+    problems = []
+    with torch.no_grad():
+        patches = om.forward(idx)
+    if tuple(patches.shape) != (S, B, nr, nc):
+        problems.append(f"forward shape {tuple(patches.shape)}")
+        return _res(problems, "(S,B,nr,nc)")
+    dev = (patches.abs() - 1).abs().max().item()
+    if dev > 1e-5:
+        problems.append(f"pure-phase object: |forward(patch_indices)| deviates from 1 by {dev:.3e} (raw parameter modulus in {inp.get('modulus', (0.5, 1.5))})")
+    probes = torch.tensor(_cplx(rng, (M, B, nr, nc)))
+    if S > 1:
+        P = _propagators(m, (nr, nc), (0.3, 0.41), 80e3, (0.0, 0.0), list(rng.uniform(2.0, 30.0, size=S - 1))).to(torch.complex128)
+        P = P / P.abs()
+    else:
+        P = torch.tensor([])
+    st = _bind(_stub(num_slices=S, _propagators=P), m.PB, "_propagate_array")
+    _pp, overlap = m.PB.overlap_projection(st, patches.to(torch.complex128), probes)
+    tot = m.DET.forward(m.DET(), overlap).sum(dim=(-2, -1)).numpy()
+    want = (probes.abs() ** 2).sum(dim=(0, 2, 3)).numpy()
+    if np.abs(tot - want).max() > 1e-4 * want.max():
+        problems.append(f"summed pattern intensity {tot.tolist()[:3]} != total probe intensity {want.tolist()[:3]}")
+    return _res(problems, "|patch| = 1 for a pure_phase object; sum_ij I[b] = sum_m sum_ij |probe[m,b]|^2")
+
+
+def fam_objforward(tier="quick", seed=0):
+    for S in (1, 2, 3):
+        for M in (1, 2):
+            for roi in ((2, 2), (3, 4), (5, 4)):
+                for modulus in ((1.0, 1.0), (0.5, 1.5), (2.0, 3.0)):
+                    yield dict(S=S, M=M, B=2, roi=roi, modulus=modulus, seed=seed + 50 * S + 7 * M + roi[0] + roi[1])
+
+
+def rt_backward(inp):
+    """ObjectPixelated.backward after PtychographyBase.overlap_projection on a pure-phase object with unit-modulus kernels:
+    back-propagation undoes forward propagation (backward(exit wave) = input probe) and <F psi, g> = <psi, B g>."""
+    m = _mods()
+    np, torch = m.np, m.torch
+    rng = np.random.default_rng(inp["seed"])
+    S, M, B, (nr, nc) = inp["S"], inp["M"], inp["B"], inp["roi"]
+    H, W = nr + 3, nc + 2
+    om = _object_model(m, S, H, W, rng, modulus=(1.0, 1.0))
+    idx = torch.tensor(_patch_indices(np, rng, B, (nr, nc), (H, W)), dtype=torch.int32)
+    with torch.no_grad():
+        patches = om.forward(idx).to(torch.complex128)
+        patches = patches / patches.abs()
+    dzs = list(rng.uniform(2.0, 30.0, size=S - 1)) if not inp.get("uniform") else [12.0] * (S - 1)
+    if S > 1:
+        P = _propagators(m, (nr, nc), (0.3, 0.41), 80e3, tuple(inp.get("tilt", (0.0, 0.0))), dzs).to(torch.complex128)
+        P = P / P.abs()
+    else:
+        P = torch.tensor([])
+    st = _bind(_stub(num_slices=S, _propagators=P), m.PB, "_propagate_array")
+    probes = torch.tensor(_cplx(rng, (M, B, nr, nc)))
+    prop, exit_wave = m.PB.overlap_projection(st, patches, probes)
+    problems = []
+    with torch.no_grad():
+        back = om.backward(exit_wave.clone(), patches, prop, P, idx)
+        g = torch.tensor(_cplx(rng, (M, B, nr, nc)))
+        Bg = om.backward(g.clone(), patches, prop, P, idx)
+    e = (back - probes).abs().max().item()
+    if e > 1e-9 * (1 + probes.abs().max().item()):
+        problems.append(f"{S} slices (dz={['%.1f' % d for d in dzs]}): backward(overlap_projection(probe)) differs from the probe by {e:.3e}")
+    lhs, rhs = torch.vdot(exit_wave.flatten(), g.flatten()).item(), torch.vdot(probes.flatten(), Bg.flatten()).item()
+    if abs(lhs - rhs) > 1e-9 * (1 + abs(lhs)):
+        problems.append(f"{S} slices: <F psi, g> = {lhs:.6f} but <psi, B g> = {rhs:.6f}")
+    return _res(problems, "backward(F(psi)) = psi and <F psi, g> = <psi, B g> for a pure-phase object with unit-modulus propagators")
+
+
+def fam_backward(tier="quick", seed=0):
+    for S in (1, 2, 3, 4, 5):
+        for M in (1, 2):
+            for roi in ((2, 2), (3, 4), (5, 4)):
+                yield dict(S=S, M=M, B=2, roi=roi, tilt=(0.0, 0.0) if (S + M) % 2 else (2.0, -3.0), seed=seed + 100 * S + 10 * M + roi[0] + roi[1])
